@@ -44,7 +44,7 @@ LEVEL_NOTE = ("Trusted: Coq kernel + vm_compute; hand-written models of CPython'
               "range checks and datetime.fromtimestamp(tz=utc) (each also validated on its own stream against the running interpreter; Unicode "
               "digit/space tables and the int() digit limit regenerated from it); numpy's conversion datetime64 -> datetime64[s] -> int64 and pandas to_pydatetime() are "
               "black boxes whose returned value is part of the model's input; the harness's mapping of Python objects to model constructors. "
-              "Candidate finding F-C08-5 (NumPy's unit conversion wraps or overflows for extreme datetime64 values: a wrapped year can be read as a date, "
+              "Known finding F-C08-5 (NumPy's unit conversion wraps or overflows for extreme datetime64 values: a wrapped year can be read as a date, "
               "the lowest second of the ns/ps/fs ranges and all of datetime64[as] give None) is guarded; objects with hostile attribute hooks are outside the model.")
 DESIGN_REF = "DESIGN.md section 8, C08"
 # The sweep stream writes its small numbers as primitive-integer literals (an order of magnitude cheaper
@@ -95,7 +95,7 @@ F3_WITNESSES = [{"k": "float", "x": (-1.5).hex(), "ty": "float"}, {"k": "float",
 F4_WITNESSES = [{"k": "pandas", "ns": 1577872800500000000, "tz": None}, {"k": "pandas", "ns": 1577872800500000000, "tz": "US/Eastern"},
                 {"k": "pandas", "ns": 1577872800000000500, "tz": None}, {"k": "pandas", "ns": -1500000000, "tz": "UTC"}, {"k": "pandas", "nat": True}]
 KNOWN_WITNESSES = {
-    # candidate: NumPy wraps the year silently, the value is read as 1970-01-01T00:14:56 instead of None
+    # known: NumPy wraps the year silently, the value is read as 1970-01-01T00:14:56 instead of None
     "F-C08-5": {"k": "dt64", "unit": "Y", "i": 7357062231923646800},
 }
 
@@ -269,6 +269,8 @@ def iso_text(case):
 
 
 _OBJ = {}
+# native datetime.time inputs (isinstance): parse_iso / DATE / TIMESTAMP treat them as no date, TIME returns them unchanged
+_TIME_OBJS = {"time": (1, 2, 3, 0), "time_us": (23, 59, 59, 999999), "time_tz": (4, 5, 6, 7), "time_sub": (7, 8, 9, 0), "time_min": (0, 0, 0, 0)}
 
 
 def _objects():
@@ -289,6 +291,9 @@ def _objects():
     class IntSub(int):
         pass
 
+    class TimeSub(datetime.time):
+        pass
+
     class BytesSub(bytes):
         pass
 
@@ -296,6 +301,8 @@ def _objects():
         "None": lambda: None, "True": lambda: True, "False": lambda: False,
         "list": lambda: [2020, 1, 1], "tuple": lambda: (2020, 1, 1), "dict": lambda: {"a": 1}, "set": lambda: {1},
         "object": lambda: object(), "complex": lambda: 5 + 0j, "time": lambda: datetime.time(1, 2, 3),
+        "time_us": lambda: datetime.time(23, 59, 59, 999999), "time_tz": lambda: datetime.time(4, 5, 6, 7, tzinfo=datetime.timezone.utc),
+        "time_sub": lambda: TimeSub(7, 8, 9), "time_min": lambda: datetime.time.min,
         "timedelta": lambda: datetime.timedelta(1), "decimal": lambda: decimal.Decimal("5"),
         "bytearray": lambda: bytearray(b"2020-01-01"), "memoryview": lambda: memoryview(b"2020-01-01"),
         "np.int32": lambda: numpy.int32(5), "np.int16": lambda: numpy.int16(5), "np.uint64": lambda: numpy.uint64(5),
@@ -370,7 +377,7 @@ def _res(fn, x, kind):
         return ["dt", [r.year, r.month, r.day, r.hour, r.minute, r.second, r.microsecond]]
     if kind == "d" and type(r) is datetime.date:
         return ["d", [r.year, r.month, r.day]]
-    if kind == "t" and type(r) is datetime.time:
+    if kind == "t" and isinstance(r, datetime.time):
         return ["t", [r.hour, r.minute, r.second, r.microsecond]]
     return ["weird", type(r).__name__]
 
@@ -528,9 +535,16 @@ def _shape(s):
     return None
 
 
-def _casts_agree(obs):
-    """DATE / TIMESTAMP / TIME casts agree with parse_iso (ValueError where it gives None)."""
+def _casts_agree(obs, native_time=None):
+    """DATE / TIMESTAMP / TIME casts agree with parse_iso (ValueError where it gives None); the TIME cast of a
+    native datetime.time is that time (parse_time returns it unchanged)."""
     r = obs["iso"]
+    if native_time is not None:
+        want = (["raise", "ValueError"], ["raise", "ValueError"], ["t", list(native_time)])
+        for name, w in zip(("ts", "date", "time"), want):
+            if obs[name] != w:
+                return "%s cast of a native time: expected %s, got %s" % (name.upper(), w, obs[name])
+        return None
     if r[0] == "dt":
         want = (["dt", r[1]], ["d", r[1][:3]], ["t", r[1][3:]])
     elif r[0] == "none":
@@ -643,13 +657,19 @@ def oracle(case, obs):
         bad = [n for n in ("ts", "date", "time") if obs[n] != ["none"]]
         return "casting None must give None, got %s" % [obs[n] for n in bad] if bad else None
     if why is None:
-        why = _casts_agree(obs)
+        why = _casts_agree(obs, _TIME_OBJS.get(case["what"]) if k == "obj" else None)
     return why
 
 
-# --------------------------------------------------------------------------- known findings (candidate)
+# --------------------------------------------------------------------------- known findings
+def known_still_fails(fid, witness):
+    """Replay a known finding's witness: the oracle's complaint if it still fails, None if it no longer does."""
+    obs = observe(witness)
+    return oracle(witness, obs)
+
+
 def known(case, obs):
-    """F-C08-5 (candidate): NumPy's own conversion to datetime64[s] is not the floor of the instant (silent int64 wrap for
+    """F-C08-5 (known): NumPy's own conversion to datetime64[s] is not the floor of the instant (silent int64 wrap for
     Y / M units, OverflowError at the lowest second of the ns / ps / fs ranges and for every datetime64[as]) AND that
     matters, i.e. the true instant or the converted value lies inside years 1..9999."""
     if case["k"] != "dt64" or case.get("nat") or not isinstance(obs, dict) or "conv" not in obs:
@@ -783,6 +803,8 @@ def value_term(case, obs):
             return None  # OrsoTypes.parse(None) short-circuits to None: checked by the oracle only
         if case["what"] == "emptystr_bytes":
             return "(VBytes nil)"
+        if case["what"] in _TIME_OBJS:
+            return "(VTime %s)" % " ".join(_z(x) for x in _TIME_OBJS[case["what"]])
         return "VOther"
     return None
 
